@@ -75,13 +75,10 @@ def _sqlite_remainder_expr(dbmodel, expression):
     Return SQL remainder.
     """
 
-    return (
-        "("
-        + dbmodel.expr_to_sql(expression.args[0], want_inline_parens=True)
-        + " % "
-        + dbmodel.expr_to_sql(expression.args[1], want_inline_parens=True)
-        + ")"
-    )
+    # SQLite's % casts to integer and takes the sign of the dividend: use the floored form (numpy.mod)
+    e0 = dbmodel.expr_to_sql(expression.args[0], want_inline_parens=True)
+    e1 = dbmodel.expr_to_sql(expression.args[1], want_inline_parens=True)
+    return f"({e0} - FLOOR({e0} / (1.0 * {e1})) * {e1})"
 
 
 def _sqlite_logical_or_expr(dbmodel, expression):
